@@ -256,6 +256,33 @@ pub fn observe(input: &[u8], o: &Opts) -> Value {
             let rewritten_file = std::fs::read(&pout)?;
             file_api_equal = opened.metadata == pkg.metadata && opened.content == pkg.content
                 && opened_meta == pkg.metadata && rewritten_file == written;
+            // ... also when the path names something that is not a regular file: a FIFO fed by another thread
+            let fifo = dir.join("in.fifo");
+            let cpath = std::ffi::CString::new(fifo.to_string_lossy().as_bytes()).unwrap();
+            if unsafe { libc::mkfifo(cpath.as_ptr(), 0o600) } == 0 {
+                let (data, fpath) = (input.to_vec(), fifo.clone());
+                let feeder = std::thread::spawn(move || {
+                    if let Ok(mut f) = std::fs::OpenOptions::new().write(true).open(&fpath) {
+                        use std::io::Write;
+                        let _ = f.write_all(&data);
+                    }
+                });
+                let via_fifo = Package::open(&fifo);
+                // whatever open() did, let the feeder finish (drain what it still wants to write)
+                if !feeder.is_finished() {
+                    use std::os::unix::fs::OpenOptionsExt;
+                    if let Ok(mut r) = std::fs::OpenOptions::new().read(true).custom_flags(libc::O_NONBLOCK).open(&fifo) {
+                        let mut buf = [0u8; 65536];
+                        for _ in 0..5000 {
+                            if feeder.is_finished() { break; }
+                            let _ = std::io::Read::read(&mut r, &mut buf);
+                            std::thread::sleep(std::time::Duration::from_millis(1));
+                        }
+                    }
+                }
+                let _ = feeder.join();
+                file_api_equal = file_api_equal && matches!(&via_fifo, Ok(p) if p.metadata == pkg.metadata && p.content == pkg.content);
+            }
             let _ = std::fs::remove_dir_all(&dir);
         }
         Ok(json!({"written_len": written.len(), "diff": diff, "tail_equal": tail_equal,
